@@ -61,12 +61,11 @@ func (r *C09Resolver) LookupIPs(ctx context.Context, name string) ([]netip.Addr,
 	rep := r.Peek(name)
 	switch rep.Kind {
 	case C09Answer:
-		if len(rep.Addrs) == 0 {
-			return nil, dns.ErrDomainNoAssociatedIPs
-		}
 		return rep.Addrs, nil
 	case C09NoAddress:
-		return nil, dns.ErrDomainNoAssociatedIPs
+		// the real dns.Resolver reports a name without addresses as an empty list from LookupIPs and as
+		// dns.ErrDomainNoAssociatedIPs from LookupIP only
+		return nil, nil
 	case C09LookupFailed:
 		return nil, dns.ErrLookup
 	default:
@@ -79,6 +78,9 @@ func (r *C09Resolver) LookupIP(ctx context.Context, name string) (netip.Addr, er
 	ips, err := r.LookupIPs(ctx, name)
 	if err != nil {
 		return netip.Addr{}, err
+	}
+	if len(ips) == 0 {
+		return netip.Addr{}, dns.ErrDomainNoAssociatedIPs
 	}
 	return ips[0], nil
 }
